@@ -7,7 +7,7 @@
     completed before the publish began is in the table when the publication is fanned out" and
     "the common order extends each publisher's order" are checked on implementation traces by
     the search acceptor (client-side stamps against the broker's steps), not proved. *)
-From Hannibal Require Import Model.Sys Chk.C09 Inv.C09 Chk.C09q Inv.C09q.
+From Hannibal Require Import Model.Sys Chk.C09 Inv.C09 Chk.C09q Inv.C09q Chk.C09s Inv.C09s.
 
 (** Every state the acceptor reaches, on any trace whatsoever, is well-formed: tables hold a
     subscriber at most once (re-subscribing does not duplicate), and in a fan-out under way the
@@ -137,3 +137,44 @@ Example C09q_acceptor_rejects :
             EvTopicOp 3 0 TPublish 1 77; EvTopicRet 3 true;
             EvBroker 9 BTopic 1 0; EvBroker 9 BSub 5 0; EvBroker 9 BUnsub 5 0; EvBroker 9 BPubBegin 4 0; EvBroker 9 BHolds 5 20] = false.
 Proof. vm_compute. repeat split. Qed.
+
+(** * Who must be served (product machine of Chk/C09s.v: main model + mailbox machine)
+
+    When a fan-out begins, the subscribers of the table whose weak sender upgrades at that moment
+    - in the main model: the actor exists and its count of references is not zero, i.e. it is
+    alive and strongly held - are owed a clone; [chk_C09s] accepts the broker's first clone and
+    the end of the fan-out only when every one of them has been reported as held, and
+    [chk_C09] makes every held subscriber be served exactly once. It runs, extracted, on every
+    implementation trace of the broker family. *)
+Theorem C09_must_serve_refines_model_and_mailbox :
+  forall tr, chk_C09s tr = true -> accepts tr = true /\ chk_C09q tr = true.
+Proof. exact chk_C09s_refines. Qed.
+Print Assumptions C09_must_serve_refines_model_and_mailbox.
+
+Theorem C09_owed_are_the_upgradable_subscribers_of_the_table :
+  forall s m b x h m' topic a,
+  m09s_step s m (EvBroker b BPubBegin x h) = Some m' -> q_bt (s_q m') b = Some topic ->
+  (In a (must_of m' b) <-> In a (table_after (lof (q_done (s_q m')) topic) []) /\ upgrades s a = true).
+Proof. exact owed_at_fanout_begin. Qed.
+Print Assumptions C09_owed_are_the_upgradable_subscribers_of_the_table.
+
+Theorem C09_no_clone_before_every_owed_subscriber_is_held :
+  (forall s m b a h m', m09s_step s m (EvBroker b BTarget a h) = Some m' -> must_of m b = [])
+  /\ (forall s m b a h m', m09s_step s m (EvBroker b BPubEnd a h) = Some m' -> must_of m b = [])
+  /\ (forall s m e m' b a, m09s_step s m e = Some m' -> In a (must_of m b) -> ~ In a (must_of m' b) ->
+        (exists h, e = EvBroker b BHolds a h) \/ (exists x h, e = EvBroker b BPubBegin x h)).
+Proof.
+  split; [exact nobody_owed_at_first_clone | split; [exact nobody_owed_at_fanout_end | exact owed_until_held]].
+Qed.
+Print Assumptions C09_no_clone_before_every_owed_subscriber_is_held.
+
+Example C09s_acceptor_rejects :
+  let c := {| sc_bound := None; sc_timeout := None; sc_failto := false; sc_strat := RestartOnly;
+              sc_stream := false; sc_entry := 2; sc_ty := 0 |} in
+  let pre := [EvSpawn 5 c; EvHandle 0 5 KAddr; EvForeign 9;
+              EvTopicOp 1 0 TSubscribe 1 5; EvTopicRet 1 true; EvTopicOp 2 0 TPublish 1 77; EvTopicRet 2 true;
+              EvBroker 9 BTopic 1 0; EvBroker 9 BSub 5 0; EvBroker 9 BPubBegin 3 0] in
+  (* the subscriber is alive and held by h0: the fan-out may not end without holding it *)
+  chk_C09s (pre ++ [EvBroker 9 BPubEnd 0 0]) = false
+  /\ chk_C09s (pre ++ [EvHandle 20 5 KSender; EvBroker 9 BHolds 5 20]) = true.
+Proof. vm_compute. split; reflexivity. Qed.
